@@ -5,6 +5,7 @@ signatures (stand-in tool) vs Model.Response, plus the documented rule itself
 as an implementation-level oracle."""
 import itertools
 
+import c02adv
 import c02x
 import env
 import pipeline
@@ -121,7 +122,9 @@ def run(ctx):
             ctx.nontriv(("defaults", rsig, asig))
         config_classes(ctx)
         histories(ctx)
+        adv_cases = c02adv.table(ctx)
     ctx.exhaustive = True
+    ctx.correspond("sp_advice_signature_table", c02adv.IMPORTS, c02adv.MODEL, c02adv.CTYPE, adv_cases, shard=100)
     ctx.correspond("sp_pipeline_signature_table", pipeline.IMPORTS, pipeline.MODEL_ACCEPT, pipeline.CTYPE, cases, shard=150)
     for unit, per_case in (("client_configuration_table", 12), ("client_histories", 9)):
         ctx.correspond(unit, HIMPORTS, HMODEL, HCTYPE, _bundles(ctx, unit, per_case), shard=1)
@@ -281,6 +284,8 @@ def replay(ctx, payload):
     print("replay cell:", cell)
     if not isinstance(cell, dict) or "shape" not in cell:
         return 0
+    if "advice" in cell:
+        return c02adv.replay(cell)
     a = A(sig=cell["asig"])
     spec = {"plain": lambda: R(sig=cell["rsig"], assertions=[a]),
             "encrypted": lambda: R(sig=cell["rsig"], assertions=[], encrypted=[a]),
